@@ -65,8 +65,8 @@ func mkSource(name string) *sliceIter {
 	return s
 }
 
-// VerifMerge: HierarchicalIterator over two sources = newest-wins merge, strictly ascending.
-func VerifMerge() {
+// VerifC05_MergeNewestWins: HierarchicalIterator over two sources = newest-wins merge, strictly ascending.
+func VerifC05_MergeNewestWins() {
 	a, b := mkSource("a"), mkSource("b") // a is newer
 	h := NewHierarchicalIterator([]iterator.Iterator{a, b})
 	// reference merge (concrete control flow: comparisons fork inside bytes.Compare)
